@@ -111,7 +111,11 @@ def write(files):
 
 def build():
     mods = [m for m in MODS if os.path.exists(os.path.join(LEAN, m.replace(".", "/") + ".lean"))]
-    r = subprocess.run(["lake", "build"] + mods, cwd=LEAN, capture_output=True, text=True)
+    try:
+        r = subprocess.run(["lake", "build"] + mods, cwd=LEAN, capture_output=True, text=True, timeout=900)
+    except subprocess.TimeoutExpired:
+        subprocess.run(["pkill", "-f", LEAN + "/GrinVerif"])
+        return 124, [("(build did not finish in 900 s: a proof no longer goes through)", "0", "0", "timeout")]
     out = r.stdout + r.stderr
     errs = re.findall(r"error: (\S+?\.lean):(\d+):(\d+): (.*)", out)
     return r.returncode, errs
